@@ -302,7 +302,9 @@ def families(tier="quick"):
     fams = []
 
     def add(key, fn, functions, defd=True):
-        fams.append(Family(f"{PID}/{key}", fn, defd=defd, functions=functions))
+        _f = Family(f"{PID}/{key}", fn, defd=defd, functions=functions)
+        _f.abstract = True
+        fams.append(_f)
 
     for d in (2, 3, 4):
         pk = ("planar", "spatial", "lorentz")
